@@ -10,10 +10,14 @@ from concurrent.futures import ThreadPoolExecutor
 
 VERIF = os.path.dirname(os.path.dirname(os.path.dirname(os.path.abspath(__file__))))
 REPO = os.environ.get("HV_REPO", "/repo")
-BUILD = os.path.join(VERIF, "build")
+# HV_SANDBOX (a testing aid, never set by the registered commands): run the same checks against another checkout
+# (HV_REPO) with build output, evidence and replays under that directory, so that several changes can be tried in parallel
+SANDBOX = os.environ.get("HV_SANDBOX")
+OUT = SANDBOX or VERIF
+BUILD = os.path.join(OUT, "build")
 COQ = os.path.join(VERIF, "coq")
 TARGET = os.path.join(BUILD, "target")
-OCAML_BUILD = os.path.join(BUILD, "ocaml")
+OCAML_BUILD = os.path.join(VERIF, "build", "ocaml")
 DRIVER = os.path.join(OCAML_BUILD, "driver")
 HARNESS = os.path.join(TARGET, "debug", "hvharness")
 HARNESS_REL = os.path.join(TARGET, "release", "hvharness")
@@ -89,10 +93,25 @@ def build_driver():
            % drv_src, cwd=OCAML_BUILD)
 
 
+def crate_dir(name):
+    """harness/ and numlib/ depend on /repo by path; in sandbox mode a copy pointing at HV_REPO is used"""
+    src = os.path.join(VERIF, name)
+    if not SANDBOX:
+        return src
+    dst = os.path.join(SANDBOX, name)
+    if not os.path.exists(dst):
+        import shutil
+        shutil.copytree(src, dst, ignore=shutil.ignore_patterns("target"))
+        ct = os.path.join(dst, "Cargo.toml")
+        text = open(ct).read().replace('path = "/repo"', 'path = "%s"' % REPO)
+        open(ct, "w").write(text)
+    return dst
+
+
 def build_harness(release=False):
     """Rebuild the harness (and with it the hyeong library) from /repo's working tree."""
     cmd = "cargo build --offline --target-dir %s%s" % (TARGET, " --release" if release else "")
-    rc, out = sh(cmd, cwd=os.path.join(VERIF, "harness"), check=False, timeout=1800)
+    rc, out = sh(cmd, cwd=crate_dir("harness"), check=False, timeout=1800)
     if rc != 0:
         raise BuildError("harness build failed:\n" + out[-4000:])
 
@@ -310,20 +329,20 @@ class Verdict:
         self.violations.append((identity, what, payload, found_input))
 
     def finish(self, level="proof"):
-        os.makedirs(os.path.join(VERIF, "evidence"), exist_ok=True)
-        os.makedirs(os.path.join(VERIF, "replays"), exist_ok=True)
+        os.makedirs(os.path.join(OUT, "evidence"), exist_ok=True)
+        os.makedirs(os.path.join(OUT, "replays"), exist_ok=True)
         for identity, what in self.known:
             print("KNOWN-FINDING: property=%s %s [%s]" % (self.prop, what, identity))
         for identity, what, payload, found in self.violations:
             h = hashlib.sha256(identity.encode()).hexdigest()[:12]
-            path = os.path.join(VERIF, "replays", "%s-%s.json" % (self.prop, h))
+            path = os.path.join(OUT, "replays", "%s-%s.json" % (self.prop, h))
             json.dump(dict(property=self.prop, identity=identity, what=what, found_failing_input=found, **payload),
                       open(path, "w"), indent=1, ensure_ascii=False)
             print("VIOLATION property=%s replay=%s%s" % (self.prop, path, "" if found else " no-failing-input-found"))
         ev = dict(property_id=self.prop, tier=self.tier, seed=self.seed, level=level, coverage=self.coverage,
                   assumptions=self.assumptions, wall_s=round(time.time() - self.t0, 2),
                   violations=len(self.violations))
-        json.dump(ev, open(os.path.join(VERIF, "evidence", "%s.json" % self.prop), "w"), indent=1, ensure_ascii=False)
+        json.dump(ev, open(os.path.join(OUT, "evidence", "%s.json" % self.prop), "w"), indent=1, ensure_ascii=False)
         sys.stdout.flush()
         return 1 if self.violations else 0
 
@@ -370,7 +389,7 @@ TARGET_NUM = os.path.join(BUILD, "target-num")
 
 def build_numlib():
     """the number-only build of /repo that emitted programs link against"""
-    rc, out = sh("cargo build --offline --target-dir %s" % TARGET_NUM, cwd=os.path.join(VERIF, "numlib"), check=False, timeout=1800)
+    rc, out = sh("cargo build --offline --target-dir %s" % TARGET_NUM, cwd=crate_dir("numlib"), check=False, timeout=1800)
     if rc != 0:
         raise BuildError("number-only library build failed:\n" + out[-4000:])
     deps = os.path.join(TARGET_NUM, "debug", "deps")
